@@ -97,6 +97,7 @@ func (p *c01Prop) Gen(r *Rng, i int, tier string) interface{} {
 	n := 6 + r.Intn(30)
 	var filters, topics []string // re-use what was used before: that is where pruning decides
 	tag := 0
+	var lastRet *c01Op
 	for k := 0; k < n; k++ {
 		x := r.Intn(100)
 		pickF := func() string {
@@ -135,6 +136,17 @@ func (p *c01Prop) Gen(r *Rng, i int, tier string) interface{} {
 				op.Empty = true
 			} else if r.Chance(8) {
 				op.Exp = true
+			}
+			if lastRet != nil && r.Chance(20) {
+				// the SAME payload on the same topic again, with another QoS / expiry: the store must
+				// hold the most recent publish, not merely an equal payload
+				op = *lastRet
+				op.QoS = (op.QoS + 1 + r.Intn(2)) % 3
+				op.Exp = !op.Exp && r.Chance(40)
+			}
+			if !op.Empty {
+				cp := op
+				lastRet = &cp
 			}
 			c.Ops = append(c.Ops, op)
 		case x < 88:
@@ -241,7 +253,7 @@ func (p *c01Prop) Run(ci interface{}) interface{} {
 		t := []int{}
 		for _, m := range ms {
 			if len(m.Payload()) >= 2 {
-				t = append(t, int(m.Payload()[0])<<8|int(m.Payload()[1]))
+				t = append(t, (int(m.Payload()[0])<<8|int(m.Payload()[1]))*4+int(m.QoS()))
 			}
 		}
 		sort.Ints(t)
